@@ -326,7 +326,8 @@ def run_exec_robust(ops, per_op_timeout=600):
         out += got
         if len(got) == len(chunk):
             break
-        stderr = (err_buf[0] if err_buf else b"").decode(errors="replace")[-400:]
+        stderr = (err_buf[0] if err_buf else b"").decode(errors="replace")
+        stderr = stderr if len(stderr) <= 1200 else stderr[:600] + " ... " + stderr[-600:]
         out.append({"r": how or "abort", "rc": rc, "stderr": stderr})
         i += len(got) + 1
     return out
